@@ -72,6 +72,9 @@ def _replay(ctx):
     t = str(rec.get("id", "COAP")).split("-")[0]
     if t == "BLEREQ":
         return _replay_blereq(ctx, whole, rec)
+    if str(rec.get("id", "")).endswith("rekey-freshness"):
+        ctx.rule = "replay: the re-key freshness observation is made again on the tree under test"
+        return _rekey_freshness(ctx)
     t = t if t in ("IP", "BLE", "COAP") else "COAP"
     loop = asyncio.new_event_loop()
     asyncio.set_event_loop(loop)
@@ -95,6 +98,27 @@ def _replay(ctx):
     finally:
         loop.close()
         asyncio.set_event_loop(None)
+
+
+def _rekey_freshness(ctx):
+    """Re-keying: every pair-verify must contribute a new controller ephemeral key (else a replayed accessory flight
+    reproduces an old session key and with it nonces that were already used); observed at the first flight of the real
+    state machine, judged by the specification's Rekey step."""
+    from aiohomekit.protocol import get_session_keys
+    pks, evs = [], []
+    for _ in range(6):
+        flight, _expected = get_session_keys({"AccessoryPairingID": "00:00:00:00:00:00", "AccessoryLTPK": "00" * 32,
+                                              "iOSPairingId": "x", "iOSDeviceLTSK": "00" * 32, "iOSDeviceLTPK": "00" * 32}).send(None)
+        pk = next((bytes(v) for t, v in flight if int(t) == 3), None)
+        evs += [{"ev": "rekey", "fresh": pk is not None and pk not in pks}, {"ev": "enc", "c0": 0, "n": 1}]
+        pks.append(pk)
+    ctx.case(("pair-verify ephemeral keys", len(set(pks))))
+    for t in ("IP", "BLE"):
+        for j in tracecheck.validate(ctx, "session/SessionCounters_Trace", f"SessionCounters_Trace_{t}.cfg",
+                                     [{"id": f"{t}-rekey-freshness", "events": evs}], label=f"re-key freshness ({t})"):
+            ctx.violation(f"{t}: pair-verify #{(j['maxl'] + 1) // 2} re-used the controller's ephemeral key of an earlier pair-verify: a replayed "
+                          f"accessory flight then yields the same session key again and every nonce under it is used twice",
+                          {"record": j.get("record"), "position": j.get("maxl")})
 
 
 def _replay_blereq(ctx, whole, rec):
@@ -274,6 +298,7 @@ def run(ctx):
                 ctx.violation(f"{t} execution {j['record']['id'] if j.get('record') else '?'} is not a behaviour of SessionCounters: "
                               + (f"invariant {j['invariant']} violated" if j.get("invariant") else f"event #{j['maxl']} {j['event']} cannot be explained"),
                               {"record": j.get("record"), "position": j.get("maxl"), "last_matched_state": j.get("last_state")})
+        _rekey_freshness(ctx)
         # BLE at request level: the real ble_request / _write_pdu / _read_pdu between real key objects and a conformant
         # accessory, with refused writes (at the first or a later fragment), lost, replayed and corrupted response fragments
         breq = []
